@@ -1,7 +1,7 @@
 """C18 — the jp command-line tool reports exactly what the library computes (structural clauses)."""
 import re
 
-from ..analysis import Branches, Origins, blocks_separate, edge_dominates, fmt_terms, reach_avoiding, term_mentions
+from ..analysis import Branches, Origins, blocks_separate, edge_dominates, fmt_terms, reach_avoiding, strip_through, term_mentions
 from ..tmatch import ANY, Agg, Call, Each, Or_, m, ms
 
 fs = frozenset
@@ -60,25 +60,27 @@ def check_delegation(ctx, jp):
     if b is None:
         return
     o = Origins(b, jp)
+    # spelling-independent: whatever reaches jmespath::compile is the `expression` argument itself or what
+    # read_file("expression", <--expr-file>) returned; both sources occur
     comp = [(bb, t) for bb, t in b.calls() if t["callee"] == "jmespath::compile"]
-    ctx.check(len(comp) == 2, rule, "compile-sites", f"main compiles the expression at two sites (argument / expression file) (found {len(comp)})", b.span)
+    ctx.check(1 <= len(comp) <= 2, rule, "compile-sites", f"main compiles the expression text (argument / expression file) (found {len(comp)} compile site(s))", b.span)
     srcs = set()
+    file_src = Call("read_file", Each(lambda x: x[0] == "const" and x[1] == '"expression"'), Each(value_of("expr-file")))
     for bb, t in comp:
-        a = o.of_operand(t["args"][0])
-        if ms(a, value_of("expression")):
-            srcs.add("argument")
-        elif ms(a, Call("std::option::Option::<T>::map", Each(value_of("expr-file")), Each(lambda x: x[0] == "closure"))):
-            srcs.add("file")
-        else:
-            srcs.add("?" + fmt_terms(a)[:60])
+        for x in o.of_operand(t["args"][0]):
+            x = strip_through(x)
+            while x[0] == "call" and x[1] in ("std::ops::Deref::deref", "std::string::String::as_str", "std::convert::AsRef::as_ref", "std::borrow::Borrow::borrow") and len(x[2]) == 1 and len(x[2][0]) == 1:
+                x = strip_through(next(iter(x[2][0])))
+            if m(x, value_of("expression")):
+                srcs.add("argument")
+            elif m(x, file_src):
+                srcs.add("file")
+            else:
+                srcs.add("?" + fmt_terms([x])[:60])
     ctx.check(srcs == {"argument", "file"}, rule, "expression-text", f"compile receives the expression argument resp. the expression file's contents, unchanged (found {sorted(srcs)})", b.span)
-    clo = [c for c in jp.closures_of("main") if any(t["callee"] == "read_file" for _, t in c.calls())]
-    ok = len(clo) == 1
-    if ok:
-        co = Origins(clo[0], jp)
-        rf = [t for _, t in clo[0].calls() if t["callee"] == "read_file"]
-        ok = len(rf) == 1 and co.of_operand(rf[0]["args"][1]) == {("param", 2)} and rf[0]["dest"]["l"] == 0
-    ctx.check(ok, rule, "expression-file", "the expression file's contents are read_file(\"expression\", path), returned unchanged", b.span)
+    rf = [t for _, t in b.calls() if t["callee"] == "read_file"]
+    ok = len(rf) == 1 and ms(o.of_operand(rf[0]["args"][0]), lambda x: x[0] == "const" and x[1] == '"expression"') and ms(o.of_operand(rf[0]["args"][1]), value_of("expr-file"))
+    ctx.check(ok, rule, "expression-file", "the expression file's contents are read_file(\"expression\", path), used unchanged", b.span)
     # search
     se = [(bb, t) for bb, t in b.calls() if t["callee"] == "jmespath::Expression::<'a>::search"]
     ok = len(se) == 1
@@ -132,8 +134,9 @@ def check_delegation(ctx, jp):
         rs = [t for _, t in r.calls() if t["callee"] == "std::io::Read::read_to_string"]
         ok = len(op) == 1 and len(rs) == 1 and ro.of_operand(op[0]["args"][0]) == {("param", 2)} and \
             ms(ro.of_operand(rs[0]["args"][1]), Call("std::string::String::new"))
-        clo = jp.closures_of("read_file")
-        ret_ok = any(Origins(c, jp).of_local(0) == {("field", ("closure_env",), "0")} or ms(Origins(c, jp).of_local(0), ("field", ("closure_env",), "0")) for c in clo)
+        # what it returns is the buffer read_to_string filled (and nothing else)
+        ret = {strip_through(x) for x in ro.of_local(0)}
+        ret_ok = bool(ret) and all(m(x, Call("std::string::String::new")) for x in ret)
         ctx.check(ok and ret_ok, rule, "read_file", "read_file opens the given path and returns everything read_to_string produced", r.span)
 
 
@@ -229,6 +232,47 @@ def exit_sites(jp):
     return out
 
 
+STDOUT_WRITERS = ("std::io::_print", "show_result")
+
+
+def is_stdout_writer(c):
+    if c["callee"] in STDOUT_WRITERS:
+        return True
+    if c["callee"].startswith("std::io::Write::write") and c.get("callee_args", [""])[0] == "std::io::Stdout":
+        return True
+    if c["callee"].startswith("serde_json::to_writer") and "Stdout" in c.get("callee_args", [""])[0]:
+        return True
+    return False
+
+
+def failure_edge_over(b, br, bb):
+    """Discriminant switches whose failing edge (Err / None) dominates block bb: [(switch block, adt, scrutinee terms)]."""
+    out = []
+    for sb, sw in br.switches():
+        ve = br.variant_edges(sb)
+        if not ve:
+            continue
+        for bad in ("Err", "None"):
+            if bad in ve["edges"] and edge_dominates(b, (sb, ve["edges"][bad]), bb):
+                out.append((sb, ve["adt"], ve["scrutinee"]))
+    return out
+
+
+def routed_to_exit(b, o, br, scrutinee_ok):
+    """The failing edge of the case analysis on a matching Result leads to a non-zero exit and never to a normal return."""
+    sb, ve = br.first_variant_switch("std::result::Result", scrutinee_ok)
+    if ve is None:
+        return False
+    err_t = ve["edges"].get("Err", ve["otherwise"])
+    if err_t == ve["edges"].get("Ok"):
+        return False
+    reach = reach_avoiding(b, err_t)
+    reg = {x for x in reach if edge_dominates(b, (sb, err_t), x)}
+    exits = [x for x in reg if b.blocks[x]["term"]["k"] == "call" and b.blocks[x]["term"]["callee"] == EXIT and b.blocks[x]["term"]["args"][0].get("int") not in (None, 0)]
+    rets = [x for x in reach if b.blocks[x]["term"]["k"] == "return"]
+    return bool(exits) and not rets
+
+
 def check_failure(ctx, jp):
     rule = "failure-discipline"
     sites = exit_sites(jp)
@@ -237,7 +281,7 @@ def check_failure(ctx, jp):
     n = 0
     for b, bb, t in sites:
         code = t["args"][0].get("int")
-        key = f"{b.deff}@exit"
+        key = f"{b.deff}@exit#{sum(1 for b2, bb2, _ in sites if b2 is b and bb2 < bb) + 1}"
         if code is None:
             ctx.bad(rule, key + ":code", f"{b.deff}: exit status is not a constant", t["span"]["s"])
             continue
@@ -250,66 +294,55 @@ def check_failure(ctx, jp):
         # (a) dominated by a write to stderr in the same body
         errw = [x for x, c in b.calls() if c["callee"].startswith("std::io::Write::write") and c.get("callee_args", [""])[0] == "std::io::Stderr"]
         dom = any(b.dominates(x, bb) for x in errw)
-        # ... whose Ok edge leads to the exit
-        # (b) no stdout write can reach it
-        outw = []
-        for x, c in b.calls():
-            if c["callee"] == "std::io::_print":
-                outw.append(x)
-            elif c["callee"].startswith("std::io::Write::write") and c.get("callee_args", [""])[0] == "std::io::Stdout":
-                outw.append(x)
-            elif c["callee"].startswith("serde_json::to_writer") and "Stdout" in c.get("callee_args", [""])[0]:
-                outw.append(x)
-            elif c["callee"] in ("show_result",):
-                outw.append(x)
-        leak = [x for x in outw if bb in reach_avoiding(b, x)]
-        # (c) the body is a map_err closure, or the exit is dominated by an Err edge
-        entered_on_err = False
-        if b.kind == "closure":
+        # (c) reached only on a failure: under the Err / None edge of a case analysis (or the body is a diagnostic closure handed to map_err)
+        fails = failure_edge_over(b, br, bb)
+        entered_on_err = bool(fails)
+        if not entered_on_err and b.kind == "closure":
             parent = jp.fn(b.j.get("closure_parent", ""))
             if parent is not None:
                 po = Origins(parent, jp)
                 for pb, pt in parent.calls():
                     if pt["callee"] == "std::result::Result::<T, E>::map_err" and any(x[0] == "closure" and x[1] == b.deff for x in po.of_operand(pt["args"][1])):
                         entered_on_err = True
-        else:
-            for sb, sw in br.switches():
-                ve = br.variant_edges(sb)
-                if ve and ve["adt"] == "std::result::Result" and "Err" in ve["edges"] and edge_dominates(b, (sb, ve["edges"]["Err"]), bb):
-                    entered_on_err = True
+        # (b) nothing was written to stdout before: no stdout writer can reach the exit — except the writer whose own failure is being reported
+        leak = []
+        for x, c in b.calls():
+            if not is_stdout_writer(c) or bb not in reach_avoiding(b, x):
+                continue
+            own = False
+            for sb, adt, scr in fails:
+                # the terms that can take the failing edge at all (an Ok(..) built on the spot / passed through as Ok cannot)
+                can_fail = [y for y in scr if not (y[0] == "agg" and y[1].endswith(("::Ok", "::Some"))) and not (y[0] == "through" and y[1] in ("Ok", "Some"))]
+                if adt == "std::result::Result" and can_fail and all(strip_through(y)[0] == "call" and strip_through(y)[1] == c["callee"] for y in can_fail):
+                    own = True
+            if not own:
+                leak.append(x)
         ctx.check(dom and not leak and entered_on_err, rule, key,
-                  f"{b.deff}: exit({code}) follows a diagnostic on stderr ({dom}), no stdout write can precede it ({not leak}), and it is reached only on a failure ({entered_on_err})", t["span"]["s"])
+                  f"{b.deff}: exit({code}) follows a diagnostic on stderr ({dom}), no result was written to stdout before it ({not leak}), and it is reached only on a failure ({entered_on_err})", t["span"]["s"])
     ctx.check(zero == ["main"], rule, "exit-0-only-for-ast", f"exit(0) occurs only in main's --ast branch (found in {zero})")
-    # each fallible step is routed to such a site
-    m_ = jp.fn("main")
-    if m_ is not None:
-        o = Origins(m_, jp)
-        me = [t for _, t in m_.calls() if t["callee"] == "std::result::Result::<T, E>::map_err"]
-        ok = len(me) == 1 and ms(o.of_operand(me[0]["args"][0]), Call("jmespath::compile", ANY))
-        ctx.check(ok, rule, "compile-error-routed", "a compile error is routed through the diverging diagnostic closure", m_.span)
-        br = Branches(m_, o)
-        sb, ve = br.first_variant_switch("std::result::Result", lambda s: ms(s, Call("jmespath::Expression::<'a>::search", ANY, ANY)))
-        ok = ve is not None
-        if ok:
-            err_t = ve["edges"].get("Err", ve["otherwise"])
-            reg = {x for x in reach_avoiding(m_, err_t) if edge_dominates(m_, (sb, err_t), x)}
-            ok = any(m_.blocks[x]["term"]["k"] == "call" and m_.blocks[x]["term"]["callee"] == EXIT for x in reg) and \
-                not any(m_.blocks[x]["term"]["k"] == "return" for x in reach_avoiding(m_, err_t))
-        ctx.check(ok, rule, "search-error-routed", "a search error ends in the stderr diagnostic and a non-zero exit, never in a normal return", m_.span)
-    g = jp.fn("get_json")
-    if g is not None:
-        go = Origins(g, jp)
-        me = [t for _, t in g.calls() if t["callee"] == "std::result::Result::<T, E>::map_err"]
-        ok = len(me) == 1 and ms(go.of_operand(me[0]["args"][0]), Call("jmespath::Variable::from_json", ANY))
-        ctx.check(ok, rule, "json-error-routed", "invalid JSON is routed through the diverging diagnostic closure", g.span)
-    # the diagnostic closures diverge (no normal return)
-    nclo = 0
+    # each fallible step is routed to such a site (spelling-independent: map_err(die).unwrap(), match, if let)
+    steps = [
+        ("main", "compile-error-routed", "a compile error", Call("jmespath::compile", ANY)),
+        ("main", "search-error-routed", "a search error", Call("jmespath::Expression::<'a>::search", ANY, ANY)),
+        ("get_json", "json-error-routed", "invalid JSON", Call("jmespath::Variable::from_json", ANY)),
+        ("get_json", "stdin-error-routed", "a failure to read stdin", Call("std::io::Read::read_to_string", ANY, ANY)),
+        ("read_file", "open-error-routed", "a file that cannot be opened", Call("std::fs::File::open", ANY)),
+        ("read_file", "read-error-routed", "a file that cannot be read", Call("std::io::Read::read_to_string", ANY, ANY)),
+    ]
+    for fn, key, what, pat in steps:
+        fb = jp.fn(fn)
+        if fb is None:
+            ctx.missing(rule, key, fn)
+            continue
+        fo = Origins(fb, jp)
+        fbr = Branches(fb, fo)
+        ok = routed_to_exit(fb, fo, fbr, lambda sc, pat=pat: bool(sc) and all(m(strip_through(x), pat) for x in sc))
+        ctx.check(ok, rule, key, f"{what} ends in the stderr diagnostic and a non-zero exit, never in a normal return", fb.span)
+    # diagnostic closures that still stand on their own never return
     for b in jp.fn_bodies():
         if b.kind == "closure" and any(t["callee"] == EXIT for _, t in b.calls()):
-            nclo += 1
             rets = [x for x in b.reachable() if b.blocks[x]["term"]["k"] == "return"]
             ctx.check(not rets, rule, f"{b.deff}:diverges", f"{b.deff} never returns (it exits or panics)", b.span)
-    ctx.floor(rule + ":closures", nclo, 4, "diagnostic closures")
 
 
 def check_panics(ctx, jp):
@@ -328,6 +361,28 @@ def check_panics(ctx, jp):
             n += 1
             k += 1
             key = f"{b.deff}:{c.split('::')[-1]}#{k}"
+            if is_panic and t.get("synthetic_unwrap"):
+                # `x.unwrap()` / `x.expect(..)` as its definition: this is the arm for Err / None; find the case analysis it belongs to
+                why = None
+                for sb, sw in br.switches():
+                    ve = br.variant_edges(sb)
+                    if not ve or bb not in (list(ve["edges"].values()) + [ve["otherwise"]]):
+                        continue
+                    scr = ve["scrutinee"]
+                    if scr and all((y[0] == "through" and y[1] in ("Ok", "Some")) or (y[0] == "agg" and y[1].endswith(("::Ok", "::Some"))) for y in scr):
+                        why = "the value is Ok / Some on every path that reaches this unwrap (the failing case was routed to a diverging diagnostic before)"
+                    elif scr and all(m(strip_through(y), ("view", "string", ("param", 1))) or m(strip_through(y), Call("jmespath::Variable::as_string", Each(("param", 1)))) for y in scr):
+                        for sb2, sw2 in br.switches():
+                            be = br.bool_edges(sb2)
+                            if be and ms(br.cond(sb2), Call("jmespath::Variable::is_string", Each(("param", 1)))) and edge_dominates(b, (sb2, be[0]), sb):
+                                why = "as_string() under the dominating test is_string()"
+                    elif scr and all(m(strip_through(y), value_of("expression")) for y in scr):
+                        if clap_rows_ok(jp, b, o, br, sb):
+                            why = "clap row: `expression` is required and mutually exclusive with `expr-file`, and this is the branch where no expr-file was given"
+                    if why is None:
+                        why_not = f"no rule discharges it ({fmt_terms(scr)[:80]})"
+                ctx.check(why is not None, rule, key.replace(":panic#", ":unwrap#"), f"{b.deff}: {t['synthetic_unwrap'].split('::')[-1]}() — " + (why or why_not), t["span"]["s"])
+                continue
             if is_panic:
                 # only the die! fallback after a failed write to stderr
                 errw = [x for x, cc in b.calls() if cc["callee"].startswith("std::io::Write::write") and cc.get("callee_args", [""])[0] == "std::io::Stderr"]
@@ -376,7 +431,7 @@ def check_panics(ctx, jp):
             if t["k"] == "call" and t["callee"] in ("std::ops::Index::index", "std::ops::IndexMut::index_mut"):
                 n += 1
                 ctx.bad(rule, f"{b.deff}:index", f"{b.deff}: indexing in the CLI has no discharge rule", t["span"]["s"])
-    ctx.floor(rule, n, 10, "panic-capable sites in the CLI")
+    ctx.floor(rule, n, 5, "panic-capable sites in the CLI")
 
 
 def check_library_panics(ctx, jp):
@@ -487,7 +542,14 @@ def clap_rows_ok(jp, b, o, br, site):
     if not (conf.get("expression") == "expr-file" and conf.get("expr-file") == "expression" and {"expression", "expr-file"} <= req):
         return False
     # branch: Option switch on map(value_of("expr-file"), closure): None edge dominates the site
-    sb, ve = br.first_variant_switch("std::option::Option", lambda s: ms(s, Call("std::option::Option::<T>::map", Each(value_of("expr-file")), ANY)))
+    def about_expr_file(terms):
+        def one(t):
+            t = strip_through(t)
+            return m(t, value_of("expr-file")) or m(t, Call("std::option::Option::<T>::map", Each(value_of("expr-file")), ANY)) or \
+                (t[0] == "agg" and t[1] == "std::option::Option::Some" and term_mentions(t, lambda y: m(y, value_of("expr-file"))))
+        return bool(terms) and all(one(t) for t in terms)
+
+    sb, ve = br.first_variant_switch("std::option::Option", about_expr_file)
     if ve is None:
         return False
     none_t = ve["edges"].get("None", ve["otherwise"])
